@@ -37,6 +37,30 @@ pub fn exec(it: &mut Interp, toks: &[&str], out: &mut Vec<String>) -> bool {
             let ids = tids(o);
             let mut fails: Vec<String> = vec![];
             let mut k1 = false;
+            // `HpoGroup: FromIterator<HpoTerm>` over the terms in arena order, reversed, and in a
+            // zig-zag order (down, up below an earlier id, ...): always the sorted set of the ids
+            {
+                let arena: Vec<hpo::HpoTerm> = o.hpos().collect();
+                let mut orders: Vec<Vec<hpo::HpoTerm>> = vec![arena.clone(), arena.iter().rev().copied().collect()];
+                let mut sorted: Vec<hpo::HpoTerm> = arena.clone();
+                sorted.sort_by_key(|t| t.id().as_u32());
+                let n = sorted.len();
+                let mut zig: Vec<hpo::HpoTerm> = vec![];
+                for i in 0..n {
+                    zig.push(if i % 2 == 0 { sorted[n - 1 - i / 2] } else { sorted[i / 2] });
+                }
+                orders.push(zig);
+                let mut mid = sorted.clone();
+                mid.rotate_left(n / 2);
+                orders.push(mid);
+                for (k, ord) in orders.into_iter().enumerate() {
+                    let g: hpo::term::HpoGroup = ord.into_iter().collect();
+                    let got: Vec<u32> = g.iter().map(|x| x.as_u32()).collect();
+                    if got != ids || g.len() != ids.len() || ids.iter().any(|x| !g.contains(&hpo::HpoTermId::from(*x))) {
+                        fails.push(format!("HpoGroup::from_iter(terms, order {k}) = {got:?}, expected the sorted ids"));
+                    }
+                }
+            }
             let gs = |g: &hpo::term::HpoGroup| crate::interp::term_ids(g);
             for a in ids.iter().take(14) {
                 for b in ids.iter().take(14) {
@@ -249,6 +273,16 @@ fn big_arena(n: u32, seed: u64) -> Result<(), String> {
     }
     let mut b = b.terms_complete();
     b.add_parent(1u32, 118u32).map_err(|_| "add_parent failed".to_string())?;
+    // links among terms inserted LATE (arena slots beyond 65 535): x below HP:118, y below x
+    let late: Vec<u32> = order.iter().rev().filter(|x| **x != 1 && **x != 118).take(2000).copied().collect();
+    let mut linked: Vec<(u32, u32)> = vec![];
+    for pair in late.chunks(2) {
+        if let [x, y] = pair {
+            b.add_parent(118u32, *x).map_err(|_| "add_parent failed".to_string())?;
+            b.add_parent(*x, *y).map_err(|_| "add_parent failed".to_string())?;
+            linked.push((*x, *y));
+        }
+    }
     let mut b = b.connect_all_terms();
     // one gene, one OMIM and one ORPHA record (same number) directly annotated to EVERY term:
     // record term lists beyond 65 535 entries
@@ -311,9 +345,32 @@ fn big_arena(n: u32, seed: u64) -> Result<(), String> {
         Ok(())
     };
     check(&o, "built")?;
+    // parents, ancestors and children of the late terms
+    let links = |o: &Ontology, what: &str| -> Result<(), String> {
+        for (x, y) in &linked {
+            let tx = o.hpo(*x).ok_or(format!("{what}: {x} missing"))?;
+            let ty = o.hpo(*y).ok_or(format!("{what}: {y} missing"))?;
+            let px: Vec<u32> = tx.parent_ids().iter().map(|p| p.as_u32()).collect();
+            let py: Vec<u32> = ty.parent_ids().iter().map(|p| p.as_u32()).collect();
+            let ay: Vec<u32> = ty.all_parent_ids().iter().map(|p| p.as_u32()).collect();
+            let cx: Vec<u32> = tx.children_ids().iter().map(|p| p.as_u32()).collect();
+            let mut want = vec![1u32, 118, *x];
+            want.sort_unstable();
+            if px != vec![118] || py != vec![*x] || ay != want || cx != vec![*y] || !ty.child_of(&tx) || !tx.parent_of(&ty) {
+                return Err(format!("{what}: links of the late terms {x} <- {y}: parents {px:?} / {py:?}, ancestors {ay:?}, children {cx:?}"));
+            }
+        }
+        let c118 = o.hpo(118u32).ok_or("118 missing")?.children_ids().len();
+        if c118 != linked.len() {
+            return Err(format!("{what}: HP:118 has {c118} children, expected {}", linked.len()));
+        }
+        Ok(())
+    };
+    links(&o, "built")?;
     let bytes = o.as_bytes();
     let re = Ontology::from_bytes(&bytes).map_err(|e| format!("from_bytes(as_bytes) of the big ontology: {e}"))?;
     check(&re, "reloaded")?;
+    links(&re, "reloaded")?;
     let cl = o.clone();
     check(&cl, "clone")?;
     let r = std::panic::catch_unwind(std::panic::AssertUnwindSafe(|| cl.iter().count()));
